@@ -84,12 +84,12 @@ def op_kind(op):
     return k
 
 
-def initial_spec(k, cfg, stats):
+def initial_spec(k, cfg, stats, generator=None, index=0):
     """Draw topologies until one builds from scratch (envelope W4); returns (spec, attempt)."""
     last = None
     for attempt in range(MAX_BUILD_ATTEMPTS):
         kk = k.sub("attempt", attempt)
-        sp = gen.gen_spec(kk, cfg)
+        sp = generator(kk, cfg, index) if generator is not None else gen.gen_spec(kk, cfg)
         try:
             S.build_world(sp, "probe")
             return sp, attempt
@@ -107,6 +107,8 @@ class RunResult:
         self.stats = {}
         self.violation = None
         self.harness_error = None
+        self.extra = {}
+        self.collected = []
         self.ended = "complete"
         self.topo_sig = None
 
@@ -124,7 +126,7 @@ def run(prop, monitor_cls, seed=0, index=0, n_ops=10, ops=None, header=None, dig
             k = Keyed(seed, prop, index)
             cfg = gen.swarm_config(k)
             cfg.update(opts.get("cfg_override", {}))
-            sp, attempt = initial_spec(k, cfg, res.stats)
+            sp, attempt = initial_spec(k, cfg, res.stats, getattr(monitor_cls, "spec_generator", None), index)
             salt = f"{seed}:{prop}:{index}"
             header = {"property": prop, "seed": seed, "index": index, "salt": salt, "cfg": cfg, "spec": sp,
                       "attempt": attempt}
@@ -147,7 +149,15 @@ def run(prop, monitor_cls, seed=0, index=0, n_ops=10, ops=None, header=None, dig
                 if op is None:
                     break
             res.ops.append(op)
-            status = mon.step(i, op)
+            try:
+                status = mon.step(i, op)
+            except Violation as v:
+                if not getattr(mon, "continue_after_violation", False):
+                    raise
+                # enumeration mode: record, rebuild the live world from the spec, go on with the catalogue
+                res.collected.append(v)
+                sim.world = S.build_world(sim.spec, sim.salt)
+                status = "violation"
             res.count("ops")
             res.count("op:" + op_kind(op))
             res.count("status:" + status)
@@ -161,6 +171,9 @@ def run(prop, monitor_cls, seed=0, index=0, n_ops=10, ops=None, header=None, dig
                 break
             i += 1
         mon.on_end()
+        if res.collected:
+            res.violation = res.collected[0]
+            res.ended = "violation"
     except Violation as v:
         res.violation = v
         res.ended = "violation"
